@@ -68,6 +68,8 @@ type Fn struct {
 	// the error result is declared as the concrete type *UserErr instead of error (only for
 	// functions whose every execution fails: a typed nil would count as a failure)
 	ErrConcrete bool `json:"err_concrete"`
+	// the error result is declared as the interface CodedErr (embeds error) instead of error
+	ErrIface bool `json:"err_iface"`
 	// provide this (reflect.MakeFunc) constructor with dig.LocationForPC(pc of declared function
 	// P<loc_pool>): error messages and CallbackInfo.Name then speak of main.P<loc_pool>
 	LocPool *int `json:"loc_pool"`
@@ -193,6 +195,15 @@ type UserErr struct {
 
 func (e *UserErr) Error() string { return fmt.Sprintf("user error fn=%d exec=%d", e.Fn, e.Exec) }
 func (e *UserErr) Unwrap() error { return e.Inner }
+func (e *UserErr) Code() int     { return e.Fn }
+
+// CodedErr: a richer error interface some functions declare as their error result type
+type CodedErr interface {
+	error
+	Code() int
+}
+
+var codedErrType = reflect.TypeOf((*CodedErr)(nil)).Elem()
 
 // NilErr: the classic typed-nil pitfall.  A user function returns error((*NilErr)(nil)): the
 // interface is non-nil, so the function has FAILED, although the pointer inside is nil.  Such a
@@ -594,6 +605,8 @@ func (r *runner) makeFunc(f *Fn, role string) reflect.Value {
 		et := errType
 		if f.ErrConcrete && r.planAt(f, 0) == "err" {
 			et = reflect.TypeOf(&UserErr{})
+		} else if f.ErrIface {
+			et = codedErrType
 		}
 		out = insertAt(out, errPos(f), et)
 	}
@@ -661,6 +674,13 @@ func (r *runner) body(f *Fn, role string, args []reflect.Value) []reflect.Value 
 					ev = reflect.ValueOf(newUserErr(f.ID, e))
 				} else {
 					ev = reflect.Zero(reflect.TypeOf(&UserErr{}))
+				}
+			}
+			if f.ErrIface && !(f.ErrConcrete && r.planAt(f, 0) == "err") {
+				if plan == "err" {
+					ev = reflect.ValueOf(newUserErr(f.ID, e)).Convert(codedErrType)
+				} else {
+					ev = reflect.Zero(codedErrType)
 				}
 			}
 			res = insertAt(res, errPos(f), ev)
